@@ -10,6 +10,25 @@ RTOL = 1e-10        # norm-wise, implementation vs exact rational reference (unc
 RTOL_ROUTES = 1e-12  # norm-wise, two assembly routes of the same bilinear form (unchanged tree: <= 3e-15)
 
 
+def _make_roomy():
+    """CPython 3.12 keeps Python frames on a 'data stack' of 16 KB chunks obtained with mmap and unmaps a chunk as
+    soon as its first frame is popped.  A hot loop whose calls straddle a chunk boundary then pays mmap+munmap per
+    call (measured here: the same cases 1.4 s vs 12..160 s depending only on the call depth of the caller).  A
+    function with a huge frame (8400 locals = 67 KB) always starts a fresh 128 KB chunk and stays its first frame for
+    the whole duration of the call, so everything it calls has ~60 KB of frame space without a boundary."""
+    k = 8400
+    src = "def roomy(fn, *a):\n    if fn is None:\n        %s = None\n    return fn(*a)\n" % " = ".join("v%d" % i for i in range(k))
+    ns = {}
+    exec(compile(src, "<roomy>", "exec"), ns)
+    return ns["roomy"]
+
+
+try:
+    from mc.par import roomy           # the framework's copy (same construction); compiling the big frame costs 0.3 s
+except ImportError:                     # pragma: no cover
+    roomy = _make_roomy()
+
+
 def dedupe(probs):
     seen, out = set(), []
     for k, m in probs:
